@@ -147,4 +147,5 @@ def check(ctx, run):
                                                           'a path returns true without an element of the first list having been found in the set built from the second: overlap can be true with an empty intersection', f'{b.file}:{b.line}')
     pub = {'functions::array_distinct', 'functions::array_intersection', 'functions::array_except', 'functions::array_overlap'}
     dispatch.r11_1(ctx, run, rule='R13.7/R11.1', only=pub)
+    dispatch.r11_3(ctx, run, rule='R13.7/R11.3', only=set(pub))
     return report.finish(run, level='other', explanation=EXPLANATION, assumptions=["A1: valid documents"])
